@@ -1,9 +1,53 @@
 pub mod types {
 use vstd::prelude::*;
+use core::ops::Deref;
 use crate::prelude::*;
+use crate::hoist::*;
 use crate::lemmas::*;
 verus! {
 broadcast use crate::prelude::group_felt;
 //@verbatim crates/air/src/types.rs struct SegmentInfo,AddrValue,Page,ContinuousPageHeader
+
+//@repo crates/air/src/types.rs impl Deref@Page
+impl Deref for Page {
+    type Target = Vec<AddrValue>;
+
+    fn deref(&self) -> (r: &Self::Target)
+        ensures r == &self.0,
+    {
+        &self.0
+    }
+}
+//@end
+
+/// SPEC (C15): product over the page cells of (z - (address + alpha * value))
+pub open spec fn page_product(cells: Seq<AddrValue>, z: nat, alpha: nat, n: nat) -> nat decreases n {
+    if n == 0 { 1 } else { fmul(page_product(cells, z, alpha, (n - 1) as nat), fsub(z, fadd(cells[n - 1].address@, fmul(alpha, cells[n - 1].value@)))) }
+}
+
+impl Page {
+//@repo crates/air/src/types.rs fn Page::get_product props=C15 rules=R4_loop_break_value
+    pub fn get_product(&self, z: Felt, alpha: Felt) -> (r: Felt)
+        ensures r@ == page_product(self.0@, z@, alpha@, self.0@.len()), // [C15:page-product-is-the-product-of-(z-(addr+alpha*value))-over-all-cells]
+    {
+        let mut res = Felt::ONE;
+        let mut i = 0;
+        { while !(
+            i == self.len()
+            )
+            invariant
+                i <= self.0@.len(),
+                res@ == page_product(self.0@, z@, alpha@, i as nat),
+            decreases self.0@.len() - i, // [C17:page-product-linear-in-page-length]
+        {
+            let current = &self[i];
+            res *= z - (current.address + alpha * current.value);
+            i += 1;
+        }
+        res
+        }
+    }
+//@end
+}
 } // verus!
 } // mod types
